@@ -12,6 +12,23 @@
    fault-free decode, thread count and open fds before/after, decompressor.read calls after
    close() returned, decompressor destroyed.
 3. trace validation against the compiled model (scheduling validator lean/Driver/C05.lean), as in C05.
+4. TRUNCATION SWEEP ("the input ends early", at EVERY byte position; harness/c07t.cpp = the real Reader with the
+   real gzip/bzip2 decompressors): small valid files of each format (PBF: header + zlib, raw, zlib data blobs and a
+   13-blob file; o5m; XML; OPL), each input path (file name -> fd [uncompressed PBF: the parser's DIRECT-FD path],
+   memory buffer, FIFO fed in 7-byte writes = short read(2) counts), every prefix length 0..n (quick: all lengths
+   of the small files, all lengths inside every framing region of the larger ones), with and without header(),
+   also as a complete gzip/bzip2 stream of the cut content and as a cut gzip/bzip2 file.  Monitor = the property:
+   the read raises from header()/read()/close(), or the prefix is a VALID shorter file (PBF: ends exactly behind a
+   complete blob, not before the header blob; OPL: every prefix is a file — an unterminated last line is a line —,
+   so the law is read(p) = read(p + "\n") and the objects of the complete lines; XML: only with the closing root
+   tag; o5m: at a dataset boundary behind the header — the reader ignores the 0xfe end marker, recorded as an
+   assumption) and then exactly the objects of the complete records are delivered.  Correspondence: the PBF
+   framing model (lean/Osmium/Model/PbfFd.lean: input-queue reader and direct-fd reader with short reads, through
+   lean/Driver/C07.lean `trunc`) is run on the SAME cuts and the outcome classes (ok after n data blobs / exception
+   before the header / exception after n data blobs) are compared with the real parser on both paths
+   (Props/C07.lean `pbf_truncation_reported`, `truncated_input_reported`).
+   Regression probe with a stable key (found by this sweep, fixed in /repo): `truncation-accepted:pbf:length-prefix`
+   (input ending 1..3 bytes into the 4-byte BlobHeader length was read as a clean end of file).
 
 Regression probes with stable keys (found by this check, fixed in /repo, KNOWN_FINDINGS.txt `fixed:`
 ba026d4, e0f0db9; verified to fire again on a copy with the fix reverted):
@@ -22,7 +39,7 @@ close() after 0..2 reads with a slowed-down parser: file offset of a dup'ed fd a
 import os
 
 import vlib
-from props import c05
+from props import c05, c07_trunc
 
 
 def corrupt_pbf_block(data, n):
@@ -62,7 +79,7 @@ def fault_files(rng, files, quick):
             c[6] ^= 0xff     # inside the BlobHeader of the header blob ("OSMHeader" type string)
             out[name + '_ch'] = {'fmt': fmt, 'kind': 'corrupt-header-blob', 'bytes': bytes(c), 'base': name, 'fault': 'corrupt-header'}
             for cut in sorted({hdr_end - 3, hdr_end + 2, len(data) // 2, len(data) - 5}):
-                out['%s_t%d' % (name, cut)] = {'fmt': fmt, 'kind': 'truncated', 'bytes': data[:cut], 'base': name, 'fault': 'truncated'}
+                out['%s_t%d' % (name, cut)] = {'fmt': fmt, 'kind': 'truncated', 'bytes': data[:cut], 'base': name, 'fault': 'truncated', 'cut': cut}
         elif name in ('opl1', 'xml1', 'o5mB'):
             mid = len(data) // 2
             c = bytearray(data)
@@ -78,7 +95,7 @@ def fault_files(rng, files, quick):
                 e = ends[len(ends) // 2] if ends else mid
                 c[e:e] = b'\x10\x03\xff\xff\xff'   # node dataset with a non-terminated varint
             out[name + '_cm'] = {'fmt': fmt, 'kind': 'corrupt-middle', 'bytes': bytes(c), 'base': name, 'fault': 'corrupt'}
-            out[name + '_tr'] = {'fmt': fmt, 'kind': 'truncated', 'bytes': data[:mid], 'base': name, 'fault': 'truncated'}
+            out[name + '_tr'] = {'fmt': fmt, 'kind': 'truncated', 'bytes': data[:mid], 'base': name, 'fault': 'truncated', 'cut': mid}
     return out
 
 
@@ -88,6 +105,22 @@ MOCK_SCRIPTS = [
     ('hib1ib1ex', True, True), ('he', False, True), ('hb1b2n3zb1e', False, True), ('ehb3', False, True), ('hn4n4n4e', False, True),
     ('e', False, False), ('b1b1', False, False), ('hb1b1b1b1b1b1b1b1b1b1b1b1b1b1b1b1b1b1b1b1b1b1b1b1b1b1b1b1x', True, True),
 ]
+
+
+def truncation_region(f, base):
+    """(must the read of this truncated file raise?, region of the cut) by the format oracles of c07_trunc"""
+    fmt, cut = f['fmt'], f.get('cut')
+    if cut is None or fmt == 'opl':
+        return False, '-'          # every prefix of an OPL file is an OPL file
+    if fmt == 'pbf':
+        L = c07_trunc.PbfLayout(base['bytes'], base.get('blob_counts') or [0] * len(c05.pbf_blobs(base['bytes'])))
+    elif fmt == 'o5m':
+        L = c07_trunc.O5mLayout(base['bytes'])
+    else:
+        L = c07_trunc.XmlLayout(base['bytes'], len(base.get('ref') or []))
+    reg = L.region(cut)[0]
+    valid = (reg == 'boundary' and (fmt != 'pbf' or L.region(cut)[1] >= 1) and (fmt != 'o5m' or cut >= 7)) or reg == 'complete'
+    return not valid, reg
 
 
 def mock_expect(script):
@@ -232,6 +265,7 @@ def check_block(ctx, b, files, ffiles, report):
             report('mock-count:%s' % kv.get('mp'), 'mock parser sent %d objects, consumer received %d in `%s` [%s]' % (want_n, got_n, b.line, es), {})
     # the first error is reported, by the expected call, as the injected exception
     must = None
+    trunc_region = None
     if full and b.obs.get('ctor') == 'ok':
         if fault == 'fread':
             must = 'InjectedError.1'
@@ -243,6 +277,13 @@ def check_block(ctx, b, files, ffiles, report):
             # a PBF block whose entities are all masked out is skipped undecoded: its corruption may go unnoticed
             if fmt != 'pbf' or fault == 'corrupt-header' or int(kv.get('mask', '15')) == 15:
                 must = 'any'
+        elif fault == 'truncated' and f is not None:
+            # the input ends early: under every schedule / queue size / pool size of the grid the read must raise, unless the
+            # prefix is a valid shorter file (format oracles of the truncation sweep)
+            raises, region = truncation_region(f, files.get(f.get('base', name)))
+            if raises:
+                must = 'any'
+                trunc_region = region
     if fault == 'fctor':
         if not (b.obs.get('ctor', '').startswith('InjectedError')):
             hit = True
@@ -252,7 +293,7 @@ def check_block(ctx, b, files, ffiles, report):
         ok = call in ('header', 'read', 'close') and (must == 'any' or what == must)
         if not ok:
             hit = True
-            report('error-not-reported:%s:%s' % (fmt, fault.split(':')[0]),
+            report('truncation-accepted:%s:%s' % (fmt, trunc_region) if trunc_region else 'error-not-reported:%s:%s' % (fmt, fault.split(':')[0]),
                    'fault `%s` was injected and the consumer read to the end, but the first error reported was `%s` (expected %s from header()/read()/close()) in `%s` [%s]: %s'
                    % (fault, first_error, must, b.line, es, calls), {})
         # header() called first must be the one that reports a failure that happens before the header is known
@@ -304,12 +345,17 @@ def run(ctx):
                 'read to the end) x header() first / not at all / at the end x close() vs destructor only x fault (none, j-th decompressor read throws '
                 'for every j, decompressor close throws, decompressor constructor throws, corrupt n-th PBF block / header blob / text line / o5m '
                 'dataset, truncation, mock parser throwing before/after the header with nested and empty buffers) x pool size 1/4 x perturbation; '
-                '20 s watchdog per scenario')
+                '20 s watchdog per scenario; PLUS the truncation sweep: (format pbf/o5m/xml/opl, plain or gzip/bzip2: complete stream of the cut content or the '
+                'compressed file cut) x (input path: file name = fd [PBF: direct-fd parser path], memory buffer, FIFO with short reads) x EVERY prefix length '
+                '0..n (quick: all lengths of the small files, all framing regions + a seeded sample of the larger ones) x header() called or not')
     ctx.assumptions += [
         'the OS scheduler is not enumerated (see C05); the progress theorems assume weak fairness of the scheduler and that the 10 ms timed '
         'wait of Queue::push returns; thread/fd leaks are observed on the runs (threads in /proc/self/task, fds in /proc/self/fd), not proved',
         'std::future/promise/packaged_task, std::mutex, std::condition_variable, std::thread::join behave as the monitor semantics of Model/Mon.lean',
     ]
+    ctx.assumptions.append('o5m: the reader does not look at the 0xfe end marker, so an o5m input that ends at a dataset boundary (behind the 7-byte header) '
+                           'is a valid shorter file for it; the sweep treats it so (histogram bucket trunc:o5m:boundary-no-end-marker-accepted); OPL: every '
+                           'prefix is an OPL file (an unterminated last line is a line), the sweep checks read(p) = read(p + LF) and the objects of the complete lines')
     ctx.trusted.append('trace completion in tools/props/c05.py is NOT trusted: every event it proposes is checked by the proved step function')
 
     proof_ok = ctx.proof_stage(exes=['model_c05', 'model_c07'])   # model_c05 = the scheduling trace validator
@@ -375,5 +421,9 @@ def _run(ctx, rng, quick, hbin, scratch, proof_ok):
             break
     ctx.extra['scenarios_run'] = nblocks
     ctx.extra['traces_validated'] = nvalid
+    # (6) truncation sweep: the input ends early at every byte position (after the grid, so that the grid's rng stream is unchanged)
+    if len(ctx.violations) < 8:
+        ctx.extra['truncation_cuts'] = c07_trunc.truncation_pass(ctx, rng, quick, files, hbin, scratch,
+                                                                 ctx.model_exe('model_c07') if ctx.exe_build_ok else None)
     if ctx.exe_build_ok and nvalid == 0 and not ctx.violations:
         ctx.violation('no-trace-validated', 'no trace could be validated against the model', {'kind': 'check-error'}, found_input=False)
